@@ -2,13 +2,14 @@
     PARTIAL.  Proved (theories/ClAluProofs.v, over the IR regenerated from src/cranelift.rs on every run and the value
     semantics of theories/ClirSem.v): for each of the 50 ALU opcodes (32/64-bit, immediate/register; byte swaps excepted)
     and all operand values, the IR built by translate_program defines the destination register to exactly the value the
-    ISA specification gives, and its divisions never trap.  and its divisions never trap; and for each of the 44 conditional jumps the value tested by brif is non-zero iff the ISA
-    condition holds.  Not modelled: the block structure (which block brif targets), memory arms other
-    than their bounds check (C11), helper calls, Cranelift's code generation.  Those are exercised by checks/C04.py against
+    ISA specification gives, and its divisions never trap; for each of the 44 conditional jumps the value tested by brif is
+    non-zero iff the ISA condition holds; each of the 22 memory opcodes makes the ISA's access; the byte swaps at each width
+    and the wide load define the ISA's value; the helper call has the ISA's shape (theories/ClMiscProofs.v).
+    Not modelled: the block structure (which block brif targets), what the called helper does, Cranelift's code generation.  Those are exercised by checks/C04.py against
     the interpreter (= the ISA by theorem C01); the refusal of local calls is checked there too. *)
 From Coq Require Import ZArith List.
-From RbpfV Require Import MachInt Ebpf ClirSem Isa ClAluProofs ClJmpProofs ClMemProofs.
-From RbpfV.gen Require Import ClAlu ClJmp ClMem.
+From RbpfV Require Import MachInt Ebpf ClirSem Isa ClAluProofs ClJmpProofs ClMemProofs ClMiscProofs.
+From RbpfV.gen Require Import ClAlu ClJmp ClMem ClMisc.
 Import ListNotations.
 Open Scope Z_scope.
 
@@ -35,9 +36,27 @@ Theorem C04_memory_accesses : forall i rd rs mb,
   Forall (fun o => access_matches o i rd rs mb) cl_mem_ops.
 Proof. exact cl_mem_arms. Qed.
 
+(** byte swaps (le / be at 16, 32, 64 bits; x86-64 host) define the destination to the ISA's to_little / to_big *)
+Theorem C04_byte_swaps : forall big w rd rs, In w [16; 32; 64] -> 0 <= rd < 2 ^ 64 ->
+  newval (gen_cl_endian big w rd rs) rd = isa_endian_value big w rd.
+Proof. exact cl_endian_arms. Qed.
+
+(** the wide load builds the constant low + high * 2^32 (mod 2^64) without overflowing on the way *)
+Theorem C04_wide_load : forall lo hi, - 2 ^ 31 <= lo < 2 ^ 31 -> - 2 ^ 31 <= hi < 2 ^ 31 ->
+  gen_cl_lddw lo hi = Ok (u64 (u32 lo + u32 hi * 2 ^ 32)).
+Proof. exact cl_lddw_arm. Qed.
+
+(** helper calls: local calls are refused at compile time, the helper is the one registered under the unsigned
+    immediate, it receives r1..r5 in order and its result defines r0 *)
+Theorem C04_helper_call_shape : forall i, - 2 ^ 31 <= imm i < 2 ^ 31 ->
+  gen_cl_call_refuses_local = true /\ gen_cl_call_key i = u32 (imm i) /\ gen_cl_call_args = [1; 2; 3; 4; 5] /\ gen_cl_call_result = 0.
+Proof. exact cl_call_shape. Qed.
+
 (** non-vacuity: 50 opcodes; a division by a zero register gives 0, a 32-bit modulo by zero keeps all 64 bits *)
 Example C04_example :
   List.length cl_alu_ops = 50%nat /\ List.length cl_jmp_ops = 44%nat /\ List.length cl_mem_ops = 22%nat /\
+  gen_cl_be16 0x1234abcd 0 = Some 0xcdab /\ gen_cl_le32 (2 ^ 64 - 1) 0 = Some 0xffffffff /\
+  gen_cl_lddw (-1) (-2) = Ok 0xfffffffeffffffff /\
   gen_cl_jmp 0x25 {| opc := 0x25; dst := 1; src := 0; off := 2; imm := 0x40 |} (2 ^ 32) 0 = 1 /\
   gen_cl_alu 0x3c {| opc := 0x3c; dst := 1; src := 2; off := 0; imm := 0 |} 77 0 = Ok (Some 0) /\
   gen_cl_alu 0x9c {| opc := 0x9c; dst := 1; src := 2; off := 0; imm := 0 |} 0x123456789abcdef0 (2 ^ 32) = Ok (Some 0x123456789abcdef0) /\
@@ -47,3 +66,6 @@ Proof. vm_compute. repeat split. Qed.
 Print Assumptions C04_alu_arms.
 Print Assumptions C04_jump_conditions.
 Print Assumptions C04_memory_accesses.
+Print Assumptions C04_byte_swaps.
+Print Assumptions C04_wide_load.
+Print Assumptions C04_helper_call_shape.
